@@ -20,7 +20,7 @@ REPO = os.environ.get("FORSYS_REPO", "/repo")
 PID = "C15"
 RULE = ("states = (rasterised tissue or shipped image, one of 8 symmetries, padding, mirror_y, ne); "
         "non-trivial = at least two cells; classes = (image, symmetry, padding, mirror, ne)")
-BOUND = {"quick": "5 rasterised tissues (square, landscape, portrait, seeded, short ridges) x 8 symmetries x 3 paddings x 2 mirror x ne 3..9, deviation bound 3; 3 shipped skeletons x 8 symmetries x 2 mirror x 2 paddings x ne {6,7}, deviation bound 2",
+BOUND = {"quick": "5 rasterised tissues (square, landscape, portrait, seeded, short ridges) x 8 symmetries x 3 paddings x 2 mirror x ne 3..9, deviation bound 3 (for ne = 3, 6, 9 without mirroring the judged lattice is the second one parsed from the same Skeleton object); 3 shipped skeletons x 8 symmetries x 2 mirror x 2 paddings x ne {6,7}, deviation bound 2",
          "thorough": "8 rasterised tissues, deviation bound 3 over symmetry x padding x mirror x ne 3..9; all 7 shipped skeletons, deviation bound 3"}
 ASSUMPTIONS = ["images obey the quantifier's filters (ridges longer than 8 px, junction angles above 25 degrees) - candidates that do not are skipped when the alphabet is built",
                "parsed cells are matched to regions through the pixel under their centroid (regions are convex)",
@@ -108,6 +108,12 @@ def parse(img, mirror_y, ne):
             # mirror_y=False is the default: left out for odd ne, spelled out for even ne (both must parse to the same truth)
             sk = fs.skeleton.Skeleton(path) if (not mirror_y and ne % 2) else fs.skeleton.Skeleton(path, mirror_y=mirror_y)
             v, e, c = sk.create_lattice()
+            if not mirror_y and ne % 3 == 0:
+                # a user who tries several resampling levels parses the same Skeleton object again (generate_mesh consumes the
+                # lattice): for ne = 3, 6, 9 the judged lattice is the SECOND one the object produces
+                fs.virtual_edges.generate_mesh(v, e, c, ne=4)
+                v = e = c = None
+                v, e, c = sk.create_lattice()
             n0 = len(c)
             border = {cid for cid, cc in c.items() if cc.is_border}
             v, e, c, _ = fs.virtual_edges.generate_mesh(v, e, c, ne=ne)
